@@ -117,6 +117,12 @@ class Oracle:
             b = _try(lambda: readers[r](fresh_copy(g)) if r.startswith('skeleton') else readers[r](fresh))
             if a != b:
                 return f'{r} = {str(a)[:150]} on the live graph but {str(b)[:150]} on a freshly reconstructed copy (after {op[0]}, outcome {C.ERR_NAME.get(code, "ok")})'
+        # clauses that do not go through a second copy of the library (a memo shared between objects would fool the fresh copy too)
+        if kind == 'TS' and any(str(e.get_edge_type()) != '->' for e in g.get_edges()):
+            if _try(lambda: g.is_stationary_graph()) == ('ok', True):
+                return 'is_stationary_graph() is True on a graph with a non-directed edge (not a DAG)'
+        if any(str(e.get_edge_type()) != '->' for e in g.get_edges()) and _try(lambda: g.is_dag()) == ('ok', True):
+            return 'is_dag() is True on a graph with a non-directed edge'
         if rng.random() < 0.3:
             why = valid_multi(g)
             if why:
@@ -140,6 +146,51 @@ def api_inventory():
     return out
 
 
+def retype_scenarios(run, tier, seed):
+    """Stationary time-series DAGs (and plain DAGs) with every reader warm; one edge is then retyped to each non-directed type and
+    back (same node names, same edge pairs: a memo keyed on names and pairs, wherever it lives, now answers for the wrong graph);
+    after every retyping every reader is compared with a fresh copy and with the clauses that need no second copy."""
+    from .. import tsprops as T
+    rng = random.Random(seed + 71)
+    n = 40 if tier == 'quick' else 400
+    readers = dict(READERS)
+    readers.update(TS_READERS)
+    done = 0
+    for it in range(n):
+        steps, gm = T.gen_ts_graph(rng, 'dag0')
+        try:
+            g = T.build(steps, gm).get_stationary_graph()
+        except Exception:  # noqa: BLE001
+            continue
+        es = g.get_edge_pairs()
+        if not es:
+            continue
+        for r in readers:
+            _try(lambda: readers[r](g))
+        s, d = rng.choice(es)
+        for ty in rng.sample(C.ETYPES[1:], 3) + ['->']:
+            try:
+                g.change_edge_type(s, d, H.ET[ty])
+            except Exception:  # noqa: BLE001
+                continue
+            done += 1
+            why = None
+            if ty != '->' and _try(lambda: g.is_stationary_graph()) == ('ok', True):
+                why = f'is_stationary_graph() is True after retyping {s!r} {ty} {d!r} (not a DAG any more)'
+            if ty != '->' and _try(lambda: g.is_dag()) == ('ok', True):
+                why = f'is_dag() is True after retyping {s!r} {ty} {d!r}'
+            fresh = fresh_copy(g)
+            for r in readers:
+                a = _try(lambda: readers[r](g))
+                b = _try(lambda: readers[r](fresh_copy(g)) if r.startswith('skeleton') else readers[r](fresh))
+                if a != b and why is None:
+                    why = f'{r} = {str(a)[:120]} on the live graph but {str(b)[:120]} on a fresh copy after retyping {s!r} {ty} {d!r}'
+            if why:
+                run.violation(dict(steps=steps, gmeta=gm, retyped=[s, d, ty], why=why), note=why[:200])
+                return
+    run.coverage['retype_scenarios'] = done
+
+
 def check(run, tier, seed):
     TABLE.clear()
     HP.history_property(run, tier, seed, pid='C04', oracle=oracle, n_quick=90, n_thorough=1500, exhaustive=False, length=30,
@@ -153,6 +204,8 @@ def check(run, tier, seed):
     run.coverage['mutators'] = muts
     run.coverage['readers'] = rds
     run.coverage['api_inventory'] = api_inventory()
+    if not run.violations:
+        retype_scenarios(run, tier, seed)
 
 
 def replay(run, path):
